@@ -18,7 +18,7 @@ rmdir "$W"; git -C /repo worktree add -q --detach "$W" HEAD || exit 2
 case "$CH" in
   revert:*) git -C "$W" revert -n "${CH#revert:}" >/dev/null 2>&1 || { echo "revert failed"; exit 2; } ;;
   none) ;;
-  *) git -C "$W" apply "$CH" || { echo "patch does not apply"; exit 2; } ;;
+  *) git -C "$W" apply "$CH" 2>/dev/null || { git -C "$W" apply --3way "$CH" >/dev/null 2>&1 && git -C "$W" reset -q; } || { echo "patch does not apply"; exit 2; } ;;
 esac
 if [ $SUITE = 1 ]; then
   ( cd "$W" && go test -vet=off -count=1 ./... >"$OUT/suite.log" 2>&1 ) && echo "repo suite: PASS" || { echo "repo suite: FAIL"; grep -E "^(--- FAIL|FAIL|panic)" "$OUT/suite.log" | head -5; }
